@@ -51,6 +51,7 @@ class Engine:
         self.hooks = []  # callables (stub, sql) run before every call: fault / crash / interference injection
         self.globals = {}
         self.macros = set()
+        self.stubs = []  # every DuckDB connection (cursor()) ever opened on this engine
 
     # -- catalog helpers -------------------------------------------------
     def add_db(self, name: str, file: str = ":memory:") -> None:
@@ -108,6 +109,7 @@ class DuckStub:
         self.engine = engine
         self.id = engine.nconn
         engine.nconn += 1
+        engine.stubs.append(self)
         self.setting = ("MEMORY", "MAIN")
         self.in_tx = False
         self.closed = False
